@@ -149,6 +149,8 @@ INCLUDE = {
     # apply-range / apply-subnet / apply-address expand to exactly the documented address set
     # the suffix lists the router selects from are what the loader produced from the file (C15's order independence starts there)
     "C15": [("C19", "c19_dns_route", None)],
+    # "an accepted configuration never makes a request handler panic": the per-request expansion of `addresses` prefixes
+    "C19": [("C02", "c02_default_policy", ("building the default policy for an accepted",))],
     "C02": [("C11", "c11_policy", ("a policy list applies exactly", "address pool =")), ("C19", "c19_dhcp_policy", ("apply-range hands out", "apply-subnet hands out", "apply-address hands out", "a policy with apply-range"))],
 }
 
